@@ -162,6 +162,7 @@ func checkC11(ctx *Ctx) *Result {
 			}
 		}
 	}
+	wrapReturnsClosure(ctx, r, "R11.6")
 	checkFirst(ctx, r)
 	r.RuleDocs["R3.1"] = "headers.First: found ⇔ key present with at least one value; returns v[0], v[:1] of that lookup"
 	r.sample(map[string]any{"closure": funcName(rt.Closure), "paths": len(rt.Paths), "preflight_predicate": []string{aOPTIONS, aFoundO, aFoundACRM}})
@@ -227,6 +228,19 @@ func checkC16(ctx *Ctx) *Result {
 		r.check(good, "R16.2", desc, "", detail, 1)
 	}
 	r.check(len(failStatus) == 1, "R16.1", "one failing status", "", fmt.Sprintf("failing debug-off preflights use %d different statuses: %v", len(failStatus), failStatus), len(failStatus))
+	// which requests are preflights at all rests on what "found" means
+	checkFirst(ctx, r)
+	r.RuleDocs["R3.1"] = "headers.First: found ⇔ key present with at least one value; returns v[0], v[:1] of that lookup (a preflight with an empty Access-Control-Request-Method value is still a preflight)"
+	// R16.3: the private-network answer is given only to a request that asked
+	r.rule("R16.3", "Access-Control-Allow-Private-Network is written only on paths where the request's Access-Control-Request-Private-Network value is `true`", 5)
+	nPNA := 0
+	for _, rp := range rt.Paths {
+		if len(rp.WritesTo(hACAPN)) == 0 {
+			continue
+		}
+		nPNA++
+		r.check(rp.Is(aPNTrue), "R16.3", rp.Describe(), "", "Access-Control-Allow-Private-Network is sent although the request did not carry Access-Control-Request-Private-Network: true", 1)
+	}
 	r.sample(map[string]any{"failing_status": failStatus})
 	return r
 }
